@@ -349,6 +349,60 @@ def writes_to_masked_only(ctx, rep, rule: str) -> None:
 
 
 # ------------------------------------------------------------------------------------------------ C04.4
+def global_selector_is_ownership_independent(ctx, rep, rule: str) -> None:
+    """The GLOBAL gradient selector says, for every block of the group, whether its parameter has a gradient — the same tuple on
+    every rank: what is extended / appended into it in `_merge_and_block_gradients` must not depend on which blocks this rank
+    owns (`self._distributor_selector` or anything computed from it).  The consumers compress the global block and buffer
+    lists with it; an ownership-masked selector freezes the blocks other ranks own."""
+    repo = ctx.repo
+    sp = spaces_engine(ctx)
+    seen = set()
+    n = 0
+    for c in sp.dist_classes:
+        fi = repo.lookup_method(c, "_merge_and_block_gradients")
+        if fi is None or fi.qual in seen:
+            continue
+        seen.add(fi.qual)
+        # the local list(s) that become self._global_grad_selector
+        sel_locals = set()
+        for st in A.walk_no_nested(fi.node):
+            if isinstance(st, (ast.Assign, ast.AnnAssign)) and st.value is not None:
+                tg = st.targets[0] if isinstance(st, ast.Assign) else st.target
+                if isinstance(tg, ast.Attribute) and tg.attr == "_global_grad_selector":
+                    sel_locals |= {x.id for x in ast.walk(st.value) if isinstance(x, ast.Name)}
+        # ownership taint: names computed from the distributor selector
+        tainted: set[str] = set()
+        changed = True
+        mentions = lambda e: any((isinstance(x, ast.Attribute) and "distributor_selector" in x.attr) or (isinstance(x, ast.Name) and x.id in tainted) for x in ast.walk(e))
+        while changed:
+            changed = False
+            for st in A.walk_no_nested(fi.node):
+                pairs = []
+                if isinstance(st, ast.Assign):
+                    pairs = [(t, st.value) for t in st.targets]
+                elif isinstance(st, (ast.AnnAssign, ast.NamedExpr)) and st.value is not None:
+                    pairs = [(st.target, st.value)]
+                elif isinstance(st, (ast.For, ast.comprehension)):
+                    pairs = [(st.target, st.iter)]
+                for tg, v in pairs:
+                    if mentions(v):
+                        for x in ast.walk(tg):
+                            if isinstance(x, ast.Name) and x.id not in tainted:
+                                tainted.add(x.id)
+                                changed = True
+        for call in A.calls(fi.node):
+            f = call.func
+            if isinstance(f, ast.Attribute) and f.attr in ("extend", "append", "insert") and isinstance(f.value, ast.Name) and f.value.id in sel_locals and call.args:
+                n += 1
+                arg = call.args[-1]
+                dep = mentions(arg)
+                # control dependence on an ownership test taints the value as well
+                cfg = CFG(fi.node)
+                ctl = [t for t, _ in cfg.branch_conditions(cfg.node_of(call)) if t.kind == "test" and mentions(t.ast.test)]
+                rep.ob(rule, f"global-selector-is-ownership-independent:{short(fi.qual)}", not dep and not ctl, fi.loc(call), f"`{ast.unparse(call)[:90]}` feeds the global gradient selector" + (" with a value computed from the distributor (ownership) selector: ranks would disagree on it and blocks owned by other ranks are never copied back" if dep or ctl else " from gradient presence only"), sample=True)
+    rep.floor(rule, "writes into the global gradient selector", n, 2)
+
+
 def empty_group_skips(ctx, rep, rule: str) -> None:
     repo = ctx.repo
     pts = ctx.engine("pts")
@@ -555,12 +609,17 @@ def run(ctx, rep) -> None:
     rep.attempt("writes_to_masked_only", writes_to_masked_only, ctx, rep, "C04.3")
     rep.attempt("empty_group_skips", empty_group_skips, ctx, rep, "C04.4")
     rep.attempt("every_group_visited", every_group_visited, ctx, rep, "C04.4")
+    from .c01 import _step_counter
+    from .c03 import _Proxy
+
+    rep.attempt("_step_counter", _step_counter, ctx, _Proxy(rep, "C01.4", "C04.4"))
     from .common import per_group_fresh
 
     rep.attempt("per_group_fresh", per_group_fresh, ctx, rep, "C04.4", [f"{DS}.{n}" for n in ("_instantiate_distributor", "_instantiate_steps", "_instantiate_momentum", "_instantiate_filtered_grads")])
     rep.rule("C04.6", "step(closure): gradient presence is read (blocking, selector, masking) only after the closure has produced this step's gradients")
     rep.attempt("gradients_read_after_closure", gradients_read_after_closure, ctx, rep, "C04.6")
     rep.attempt("selector_construction", selector_construction, ctx, rep, "C04.5")
+    rep.attempt("global_selector_is_ownership_independent", global_selector_is_ownership_independent, ctx, rep, "C04.5")
     from .common import utility_semantics
 
     rep.rule("C04.7", "the pure utilities this property is built on compute what they document (concrete interpretation on small cases)")
